@@ -197,4 +197,39 @@ def extra_checks(tier, seed, pool):
     return out
 
 
+def replay_start_first(failure):
+    """native: real Filter.run with a capturing lineage client; init() fails at different points (invalid source, output that cannot be bound) or succeeds; the first event of
+    every history must be START and there is exactly one"""
+    import logging, os, threading
+    logging.disable(logging.CRITICAL)
+    os.environ.pop('OPENLINEAGE_DISABLED', None)
+    from openfilter.filter_runtime.filter import Filter
+    from openfilter.observability.lineage import OpenFilterLineage
+    obs = []
+    for label, cfg in (('invalid source', {'id': 'replay', 'sources': 'file:///nope.mp4'}), ('output that cannot be bound', {'id': 'replay', 'outputs': 'ipc:///nonexistent-dir-verif/sub/out'}),
+                       ('init succeeds', {'id': 'replay', 'exit_after': 0.2})):
+        events = []
+
+        class Capture:
+            def emit(self, ev):
+                events.append(str(getattr(ev.eventType, 'name', ev.eventType)))
+
+        class F(Filter):
+            emitter = OpenFilterLineage(client=Capture(), interval=1, filter_name='F')
+
+            def process(self, frames):
+                return None
+        try:
+            F.run(cfg, stop_evt=threading.Event(), sig_stop=False)
+        except BaseException:
+            pass
+        if F.emitter._thread is not None:
+            F.emitter._thread.join(3)
+        if not events or events[0] != 'START' or events.count('START') != 1:
+            obs.append(f'{label}: event history {events}')
+    return {'confirmed': bool(obs), 'inputs': 'Filter.run with lineage on: init() raising at different points / succeeding', 'observed': obs or 'START first, exactly once',
+            'required': 'every run history starts with exactly one START event'}
+
+
 UNITS = [RunUnit({'C18'}, name='Filter.run lineage events (+ real exit, fini)'), InitUnit(('C18',)), HeartbeatUnit()]
+UNITS[1].replay = replay_start_first
